@@ -45,6 +45,7 @@ class Scenario:
     exec_timeouts_s: list = field(default_factory=lambda: [None])    # execution timeouts offered to enqueue
     no_defer: bool = False               # never offer recurring (defer_by) parameters
     script: list | None = None           # directed history: the operations in this order instead of seeded choices
+    abs_delays: bool = False             # delays count from the start of the history, not from the enqueue: identical due instants
 
 
 def make_inmem():
@@ -132,11 +133,13 @@ async def run_history(loop, sc: Scenario, make=None, projector=None, latency_us=
             return r
         return await t
 
+    t0_wall = vloop.wall()
+
     def mkparams(delay_ms, ttl_ms):
         now = vloop.wall()
         kw = {}
         if delay_ms is not None:
-            when = now + timedelta(milliseconds=delay_ms)
+            when = (t0_wall if sc.abs_delays else now) + timedelta(milliseconds=delay_ms)
             r = rng.random()
             if r < 0.4:
                 kw["delay"] = DelayProperties(next_execution_time=when)
